@@ -3,7 +3,7 @@ import random
 
 from vlib import docs as D
 from vlib import gt, walk
-from vlib.par import pmap
+from vlib.par import pmap, timeout_failure
 
 PROPERTY = 'C03'
 LEVEL = 'other'
@@ -104,7 +104,7 @@ def bounded(tier, seed, repo_root):
     xs = gt.xml_specs()
     for _ in range(300 if tier == 'quick' else 3000):
         jobs.append(('xml', rnd.choice(xs), rnd.choice(xs), gt.OPTION_COMBOS[rnd.randrange(9)]))
-    res = pmap(_check, jobs, repo_root)
+    res = pmap(_check, jobs, repo_root, job_timeout=60, on_timeout=timeout_failure('C03'))
     fails = [f for fs in res for f in fs if f['class'].startswith('c03-')]
     return [{
         'name': 'C03.cost-sums', 'bound': f"documents <= {4 if tier == 'quick' else 5} nodes over {atoms!r} "
